@@ -13,7 +13,7 @@ ENV["UBSAN_OPTIONS"] = "print_stacktrace=1:halt_on_error=1"
 ENV["ASAN_SYMBOLIZER_PATH"] = "/usr/bin/llvm-symbolizer-14"
 ENV["LC_ALL"] = "C"
 
-_FRAME = re.compile(r"#\d+ 0x[0-9a-f]+ in (.+?) /verif/build/mirror/([^\s:]+):(\d+)")
+_FRAME = re.compile(r"#\d+ 0x[0-9a-f]+ in (.+?) /\S*?/mirror/([^\s:]+):(\d+)")
 _FRAME_ANY = re.compile(r"#\d+ 0x[0-9a-f]+ in (.+?) (/verif/build/mirror/|/verif/harness/)([^\s:]+):(\d+)")
 
 
